@@ -309,12 +309,13 @@ impl TransactionGuard {
         }
     }
 
-    pub(crate) fn allocate_read(
+    // Registers a read of the latest commit, returning the data root of that same commit
+    pub(crate) fn allocate_read_with_root(
         tracker: Arc<TransactionTracker>,
         mem: &TransactionalMemory,
-    ) -> Result<Self> {
-        let id = tracker.register_read_transaction(mem)?;
-        Ok(Self::new_read(id, tracker))
+    ) -> Result<(Self, Option<BtreeHeader>)> {
+        let (id, root) = tracker.register_read_transaction_with_root(mem)?;
+        Ok((Self::new_read(id, tracker), root))
     }
 
     pub(crate) fn new_write(
@@ -554,12 +555,17 @@ impl Sealed for Database {}
 
 impl ReadableDatabase for Database {
     fn begin_read(&self) -> Result<ReadTransaction, TransactionError> {
-        let guard = TransactionGuard::allocate_read(self.transaction_tracker.clone(), &self.mem)?;
+        // The root is taken together with the registration: commits may complete between here
+        // and the construction of the transaction, and the snapshot read must be the one pinned
+        let (guard, root) = TransactionGuard::allocate_read_with_root(
+            self.transaction_tracker.clone(),
+            &self.mem,
+        )?;
         #[cfg(feature = "logging")]
         debug!("Beginning read transaction id={:?}", guard.id());
         #[cfg(redb_verif)]
         crate::verif_sched::pause("read.registered");
-        ReadTransaction::new(self.get_memory(), guard)
+        ReadTransaction::new_with_root(self.get_memory(), guard, root)
     }
 
     fn cache_stats(&self) -> CacheStats {
